@@ -217,6 +217,55 @@ def Handle.stepPushFirst (h : Handle) : HOp → Handle × Bool
     if r.ok then (h'.setNew r.spec, true) else (h', false)
   | op => h.step op
 
+/-! ### Concurrent specification changes (C12)
+
+  `WritersHandle::set_new_spec` = compute the max level of the new spec; take the write lock;
+  replace the spec; `log::set_max_level(..)`; release the lock (since the `fix:` commit the max
+  level is set while the lock is still held; before, the lock was released first). -/
+
+structure CState where
+  handle : Handle
+  lock : Option Nat                     -- thread between "lock taken" and "lock released"
+  waiting : List (Nat × LogSpec)        -- calls blocked on the lock, in arrival order
+  gateOf : List (Nat × Nat)             -- (thread, max level computed before taking the lock)
+deriving DecidableEq, Repr
+
+inductive CAct where
+  | start (t : Nat) (s : LogSpec)       -- the call of thread `t` reaches the lock
+  | finish (t : Nat)                    -- thread `t` sets the max level and releases the lock
+deriving DecidableEq, Repr
+
+def CState.acquire (c : CState) (t : Nat) (s : LogSpec) : CState :=
+  { c with lock := some t, handle := { c.handle with active := s },
+           gateOf := (t, gateFor c.handle.ceilings s) :: c.gateOf }
+
+/-- one step; the Boolean says whether the action could proceed (`false` = blocked / not enabled) -/
+def CState.step (c : CState) : CAct → CState × Bool
+  | .start t s =>
+    match c.lock with
+    | none => (c.acquire t s, true)
+    | some _ => ({ c with waiting := c.waiting ++ [(t, s)] }, false)
+  | .finish t =>
+    if c.lock = some t then
+      let g := match c.gateOf.find? (·.1 = t) with | some p => p.2 | none => c.handle.gate
+      let c := { c with lock := none, handle := { c.handle with gate := g },
+                        gateOf := c.gateOf.filter (·.1 ≠ t) }
+      match c.waiting with
+      | [] => (c, true)
+      | (t', s') :: rest => (({ c with waiting := rest }).acquire t' s', true)
+    else (c, false)
+
+/-- the behaviour before the fix: the lock covers only the replacement of the spec.
+    `A t s` = lock, replace, unlock; `B t` = set the max level computed before `A`. -/
+def CState.stepUnlocked (c : CState) : CAct → CState
+  | .start t s =>
+    { c with handle := { c.handle with active := s },
+             gateOf := (t, gateFor c.handle.ceilings s) :: c.gateOf }
+  | .finish t =>
+    match c.gateOf.find? (·.1 = t) with
+    | some p => { c with handle := { c.handle with gate := p.2 }, gateOf := c.gateOf.filter (·.1 ≠ t) }
+    | none => c
+
 /-! ### Routing: `FlexiLogger::log` / `FlexiLogger::enabled` -/
 
 /-- `target.get(1..target.len()-1)` on a target that starts with `{`: `none` when `len < 2`
